@@ -431,6 +431,55 @@ def check(fx, rep, tier):
                 turned = any(a.get("k") == "MethodCall" and a["method"] in ("ok_or", "ok_or_else") and key == "recv" for a, key in cps[-2:])
                 rep.oblige(turned, "R17.6", f"stack-underflow:{b['name']}", F.loc(c["span"]), f"`Stack::{b['name']}` does not turn an empty stack into an error: a stack underflow is never raised")
     rep.floor("R17.6", n_src, 2, "operations of the stack that can overflow / underflow")
+    # no opcode drops an error it was handed: every fallible call inside an opcode implementation (stack operations first of all)
+    # is propagated - `?`, the tail / returned value, or an explicit Err exit. An adaptor that flattens Results (`flat_map`,
+    # `filter_map(Result::ok)`, `.ok()`) turns a stack underflow into "fewer operands" and the path carries on.
+    n_prop3 = 0
+    for ob in [b for i_, b in fx.trait_method_bodies("opcode::Opcode", "execute")] + [b for b in fx.fn_bodies() if b["def"].startswith("opcode::") and b.get("kind") == "fn" and b.get("hir") and not b.get("impl_self")]:
+        root = ob["hir"]["value"]
+        for c, cps in F.calls(root):
+            ty = (c.get("ty") or "").replace(" ", "")
+            if not ty.startswith("std::result::Result<") or "error::execution::Error" not in ty:
+                continue
+            if c.get("exp"):
+                continue
+            if c.get("k") == "Call" and (F.path_def(c["f"]) or "").split("::")[-1] in ("Ok", "Err"):
+                continue  # building a Result, not receiving one
+            n_prop3 += 1
+            under_try = any(isinstance(a, dict) and a.get("k") == "Match" and "TryDesugar" in (a.get("source") or "") for a, _ in cps[-3:])
+            # tail / returned: no enclosing statement list entered through `stmts` inside the innermost closure or function
+            inner = cps
+            for i_ in range(len(cps) - 1, -1, -1):
+                if isinstance(cps[i_][0], dict) and cps[i_][0].get("k") == "Closure":
+                    inner = cps[i_ + 1:]
+                    break
+            in_closure = inner is not cps
+            is_tail = not any(("stmts" in a and k_ == "stmts") or (isinstance(a, dict) and a.get("k") in ("Call", "MethodCall") and a is not c) for a, k_ in inner if isinstance(a, dict))
+            ret = any(isinstance(a, dict) and a.get("k") == "Ret" for a, _ in cps[-2:])
+            matched = T.explicit_err_exit(cps)
+            for a, k_ in reversed(cps):
+                if isinstance(a, dict) and a.get("k") == "Match" and k_ == "scrut" and "TryDesugar" not in (a.get("source") or ""):
+                    matched = True  # the kinds it handles are judged by the swallowed-kinds rule below
+                    break
+                if isinstance(a, dict) and a.get("k") not in ("DropTemps", "Use", "AddrOf"):
+                    break
+            # a Result that is the value of a closure is only as good as what consumes the closure's results
+            flattening = False
+            if in_closure and is_tail:
+                for a, k_ in reversed(cps):
+                    if isinstance(a, dict) and a.get("k") == "MethodCall" and a["method"] in ("flat_map", "filter_map", "flatten", "map_while"):
+                        flattening = True
+                        break
+                    if isinstance(a, dict) and a.get("k") == "Closure":
+                        continue
+            let_bound = any(isinstance(a, dict) and a.get("s") == "Let" and k_ == "init" for a, k_ in cps[-2:])
+            ok3 = (under_try or ret or matched or (is_tail and not flattening) or let_bound) and not (c.get("k") == "MethodCall" and False)
+            if c.get("k") == "MethodCall" and any(isinstance(a, dict) and a.get("k") == "MethodCall" and a["method"] in ("ok", "unwrap_or", "unwrap_or_default", "unwrap_or_else", "is_ok", "is_err") and k_ == "recv" for a, k_ in cps[-1:]):
+                ok3 = False
+            kname = c["method"] if c.get("k") == "MethodCall" else (F.callee_def(c) or "").split("::")[-1]
+            ordn = sum(1 for y in rep.instances.get("R17.3", []) if y.startswith(f"propagated:{F.strip_generics(ob['def'])}:{kname}#")) + 1
+            rep.oblige(ok3, "R17.3", f"propagated:{F.strip_generics(ob['def'])}:{kname}#{ordn}", F.loc(c["span"]), f"`{ob['def']}` does not hand on the failure of `{kname}` (its Result is flattened, defaulted or dropped): an execution error that was raised - a stack underflow, say - is not recorded, and the path continues as if the operation had succeeded", sample={"rule": "R17.3", "fn": ob["def"], "call": kname} if n_prop3 <= 3 else None)
+    rep.floor("R17.3", n_prop3, 150, "fallible calls inside opcode implementations")
     # no opcode swallows an error it was handed: an arm that matches execution-error kinds and answers Ok(()) records the error
     # (at least in strict mode) first
     n_sw = 0
